@@ -1,5 +1,6 @@
 import TabulaModel.Model.Layout
 import TabulaModel.Lemmas.Layout
+import TabulaModel.Lemmas.LayoutBound
 /-!
 # C09 — layout analysis never loses, invents or duplicates text
 
@@ -317,11 +318,23 @@ theorem assemble_conserves (fs : List Frag) :
   rw [nonspace_assembleText]
   exact textsOf_perm (stableSort_perm _ _)
 
-/-- `extractPreserveLayout`, whatever padding it writes -/
+/-- `extractPreserveLayout`, whatever padding it writes. Unchanged by the C02 repair daef69b
+(which clamps the padding: still white space) and kept verbatim: it covers every amount of
+padding, the clamped one included. -/
 theorem assemble_conserves_preserveLayout (pad : List Frag → Frag → Nat × Nat) (fs : List Frag) :
     (nonspace (preserveLayout pad fs)).Perm (nonspace (textsOf fs)) := by
   unfold preserveLayout
   rw [nonspace_plEmit]
+  exact textsOf_perm (stableSort_perm _ _)
+
+/-- `extractPreserveLayout` as the code has it after daef69b (`preserveLayoutGo`: the lines, the
+column counter, at most 100 newlines per vertical gap, target column at most 200), for every
+character width and fall-back line height: still exactly the non-space characters of the
+fragments. The clamps of daef69b truncate PADDING only, never text: no hypothesis on the
+coordinates is needed (how much padding: `Props/C09Bound.lean`). -/
+theorem assemble_conserves_preserveLayoutGo (cw lh0 : Rat) (fs : List Frag) :
+    (nonspace (preserveLayoutGo cw lh0 fs)).Perm (nonspace (textsOf fs)) := by
+  rw [nonspace_preserveLayoutGo]
   exact textsOf_perm (stableSort_perm _ _)
 
 /-- `extractByColumn` on the line texts of the sections, whatever (white) separators it writes -/
